@@ -455,13 +455,16 @@ func generate(c *GenCtx) []Op {
 		genCorpus(c)
 		genRandom(c, "rand", c.n(15000, 300000), 3)
 		genProjections(c, c.n(25000, 500000))
+		genTyped(c, c.n(30000, 600000), 3)
 	case "C02":
 		genArgs(c)
+		genTyped(c, c.n(20000, 400000), 3)
 		genSort(c)
 		genStrings(c)
 	case "C03":
 		genBytes(c)
 		genRandom(c, "rand", c.n(5000, 100000), 3)
+		genTyped(c, c.n(10000, 200000), 4)
 	case "C04":
 		genTokens(c)
 		genLiterals(c)
@@ -470,6 +473,7 @@ func generate(c *GenCtx) []Op {
 		genOverflow(c)
 	case "C06":
 		genRandom(c, "rand", c.n(3000, 50000), 2)
+		genTyped(c, c.n(10000, 200000), 3)
 	case "C07":
 		genRandom(c, "rand", c.n(2000, 20000), 2)
 	case "C08":
@@ -494,12 +498,14 @@ func generate(c *GenCtx) []Op {
 		genCorpus(c)
 		genRandom(c, "rand", c.n(10000, 200000), 3)
 		genProjections(c, c.n(5000, 100000))
+		genTyped(c, c.n(15000, 300000), 3)
 	case "C16":
 		genLiterals(c)
 	case "C17":
 		c.pairs = genIdentities(c)
 	case "C18":
 		genRandom(c, "rand", c.n(5000, 100000), 3)
+		genTyped(c, c.n(20000, 400000), 3)
 		genOverflow(c)
 		genArgs(c)
 	case "C19":
